@@ -93,7 +93,9 @@ CHECKS = {
                 "revocations (half of the scenarios notify one of them twice), each tower answering every add_appointment per a random script over {accept, subscription "
                 "error, API error codes, non-JSON, wrong shape, signature by another key, undecodable signature, empty body, connection closed without answer, HTTP 500}; fault "
                 "plan per scenario: none / tower outage during some notifications / SIGKILL when the n-th request reaches a tower (before or after its answer) / abort at the "
-                "k-th client commit point (hooked); killed clients are restarted on the same directory and the unanswered notification is sent again. Oracle (sqlite file read "
+                "k-th client commit point (hooked); killed clients are restarted on the same directory and the unanswered notification is sent again. Every fourth scenario is a "
+                "retry-path crash sweep instead: appointments pending for a tower that was down, a reference restart with the tower up records the hook points hit until "
+                "everything is delivered, then one run per hook point k (abort at k, restart) which must end delivered with exactly one record each. Oracle (sqlite file read "
                 "only): after every answered notification, after every restart and after the retry rounds, for every answered revocation and every registered, non-misbehaving "
                 "tower exactly one of: receipt row verifying under the tower id / pending row with the full body / invalid row with the full body; every notification is "
                 "answered; no panic text. distinct = distinct (tower scripts, fault plan).",
